@@ -21,6 +21,7 @@ type onode struct {
 	k    int64
 	kids []*onode
 	fn   string
+	lead int // leadspread: number of leading arguments
 }
 
 const orderPreamble = `func f0() { return nil }
@@ -57,7 +58,19 @@ func (g *ogen) intExpr(d int) *onode {
 		}
 		return xs
 	}
-	switch g.r.Intn(30) {
+	switch g.r.Intn(33) {
+	case 30, 31:
+		// f(a, b, [c, d]...): leading arguments, then the spread operand, for a fixed-arity script function (k = parameters,
+		// the first kids up to the marker are the leading arguments)
+		np := 2 + g.r.Intn(5)
+		nl := 1 + g.r.Intn(2)
+		return &onode{kind: "leadspread", fn: fmt.Sprintf("f%d", np), k: int64(np), lead: nl, kids: ints(nl + g.r.Intn(np+1))}
+	case 32:
+		// x in [e1, e2, ...] with the list written as a literal and a match on the FIRST element: every element is still evaluated
+		v := int64(g.r.Intn(5))
+		first := &onode{kind: "probe", kids: []*onode{{kind: "lit", k: v}}}
+		same := &onode{kind: "probe", kids: []*onode{{kind: "lit", k: v}}}
+		return &onode{kind: "inlist", kids: append([]*onode{first, same}, ints(1+g.r.Intn(3))...)}
 	case 27:
 		// a[low:high] / a[low:high:max]: the bounds are evaluated once each, low first
 		return &onode{kind: "slicebounds", k: int64(2 + g.r.Intn(2)), kids: ints(4)}
@@ -185,6 +198,10 @@ func (n *onode) src() string {
 		return n.fn + "(" + joinKids(n.kids) + ")"
 	case "spread", "gospread", "govspread":
 		return n.fn + "([" + joinKids(n.kids) + "]...)"
+	case "leadspread":
+		return n.fn + "(" + joinKids(n.kids[:n.lead]) + ", [" + joinKids(n.kids[n.lead:]) + "]...)"
+	case "inlist":
+		return "gv0(" + n.kids[0].src() + " in [" + joinKids(n.kids[1:]) + "])"
 	case "binop":
 		r := n.kids[1].src()
 		if n.fn == "in" {
@@ -337,7 +354,21 @@ func (n *onode) ref(tr *[]string) (interface{}, bool) {
 			return nil, true
 		}
 		return int64(len(vs)), false
-	case "binop", "addrarg", "indexops":
+	case "leadspread":
+		// leading arguments left to right, then the elements of the spread list; together they must supply the parameters
+		// (more argument expressions than parameters: rejected for its argument count, nothing is evaluated)
+		if n.lead+1 > int(n.k) {
+			return nil, true
+		}
+		vs, bad := evalAll(n.kids)
+		if bad {
+			return nil, true
+		}
+		if len(vs) < int(n.k) {
+			return nil, true
+		}
+		return vs[0], false
+	case "binop", "addrarg", "indexops", "inlist":
 		if _, bad := evalAll(n.kids); bad {
 			return nil, true
 		}
